@@ -1178,6 +1178,18 @@ class VInterp(sym.Interp):
             for x in items:
                 self.apply_closure(cv, [x], n)
             return None
+        if name == "try_for_each":
+            # the closure returns Result<(), E> / Option<()>: the first known failure stops the iteration and is the value; a result whose outcome the model does
+            # not know (an uninterpreted fallible call) cannot be followed both ways here and is refused
+            cv = self._closure_arg(n)
+            opt = "option::Option" in (n.get("ty") or "")
+            for x in items:
+                r = self.apply_closure(cv, [x], n)
+                if isinstance(r, sym.Variant) and r.name in ("Err", "None"):
+                    return r
+                if not (isinstance(r, sym.Variant) and r.name in ("Ok", "Some")):
+                    raise sym.Unsupported(n, "try_for_each over a result of unknown outcome (%r)" % (r,))
+            return sym.Variant("Some" if opt else "Ok", [()])
         if name == "product":
             acc = sp.Integer(1)
             for x in items:
